@@ -61,35 +61,53 @@ Lemma prog_weights_nth g target ctx : forall alts ws, prog_weights g target ctx 
   forall i x q, nth_error alts i = Some x -> nth_error ws i = Some q -> exists h : Z, q = (inject_Z h * prod_weight g x)%Q.
 Proof.
   induction alts as [|a t IH]; intros ws H i x q Hx Hq; cbn [prog_weights] in H; [destruct i; discriminate|].
-  destruct (if in_rec g a then _ else _) as [w|] eqn:Ew; cbn [bind] in H; [|discriminate].
+  destruct (gdist_ty g a) as [v|] eqn:Ev; cbn [bind] in H; [|discriminate].
   destruct (prog_weights g target ctx t) as [r|] eqn:Er; cbn [bind] in H; [|discriminate]. inversion H; subst ws. clear H.
   destruct i as [|i']; cbn [nth_error] in Hx, Hq.
-  - inversion Hx; inversion Hq; subst. exists w. reflexivity.
+  - inversion Hx; inversion Hq; subst. eexists. reflexivity.
   - eapply IH; eauto.
+Qed.
+
+Lemma prog_fallback_nth g : forall alts ws, prog_fallback g alts = Ok ws ->
+  forall i x q, nth_error alts i = Some x -> nth_error ws i = Some q -> q = prod_weight g x \/ q = 0%Q.
+Proof.
+  induction alts as [|a t IH]; intros ws H i x q Hx Hq; cbn [prog_fallback] in H; [destruct i; discriminate|].
+  destruct (gdist_ty g a) as [v|] eqn:Ev; cbn [bind] in H; [|discriminate].
+  destruct (prog_fallback g t) as [r|] eqn:Er; cbn [bind] in H; [|discriminate]. inversion H; subst ws. clear H.
+  destruct i as [|i']; cbn [nth_error] in Hx, Hq.
+  - inversion Hx; inversion Hq; subst. destruct (INF <=? v); [right|left]; reflexivity.
+  - eapply IH; eauto.
+Qed.
+
+Lemma prog_fallback_length g : forall alts ws, prog_fallback g alts = Ok ws -> length ws = length alts.
+Proof.
+  induction alts as [|a t IH]; intros ws H; cbn [prog_fallback] in H; [inversion H; reflexivity|].
+  destruct (gdist_ty g a) as [v|]; cbn [bind] in H; [|discriminate].
+  destruct (prog_fallback g t) as [r|] eqn:Er; cbn [bind] in H; [|discriminate]. inversion H; subst. cbn [length]. rewrite (IH _ eq_refl). reflexivity.
 Qed.
 
 Lemma prog_final_nth g target ctx alts ws : prog_final_weights g target ctx alts = Ok ws ->
   forall i x q, nth_error alts i = Some x -> nth_error ws i = Some q ->
-  (exists h : Z, q = (inject_Z h * prod_weight g x)%Q) \/ q = prod_weight g x.
+  (exists h : Z, q = (inject_Z h * prod_weight g x)%Q) \/ q = prod_weight g x \/ q = 0%Q.
 Proof.
   unfold prog_final_weights. destruct (prog_weights g target ctx alts) as [ws0|] eqn:E; cbn [bind]; [|discriminate].
-  intros H i x q Hx Hq. inversion H; subst ws. clear H.
+  intros H i x q Hx Hq.
   destruct (forallb (fun q0 => Qeq_bool q0 0) ws0).
-  - right. rewrite nth_error_map, Hx in Hq. inversion Hq. reflexivity.
-  - left. eapply prog_weights_nth; eauto.
+  - right. eapply prog_fallback_nth; eauto.
+  - inversion H; subst ws. left. eapply prog_weights_nth; eauto.
 Qed.
 
 Lemma prog_weights_length g target ctx : forall alts ws, prog_weights g target ctx alts = Ok ws -> length ws = length alts.
 Proof.
   induction alts as [|a t IH]; intros ws H; cbn [prog_weights] in H; [inversion H; reflexivity|].
-  destruct (if in_rec g a then _ else _) as [w|]; cbn [bind] in H; [|discriminate].
+  destruct (gdist_ty g a) as [v|]; cbn [bind] in H; [|discriminate].
   destruct (prog_weights g target ctx t) as [r|] eqn:Er; cbn [bind] in H; [|discriminate]. inversion H; subst. cbn [length]. rewrite (IH _ eq_refl). reflexivity.
 Qed.
 
 Lemma prog_final_length g target ctx alts ws : prog_final_weights g target ctx alts = Ok ws -> length ws = length alts.
 Proof.
   unfold prog_final_weights. destruct (prog_weights g target ctx alts) as [ws0|] eqn:E; cbn [bind]; [|discriminate].
-  intro H. inversion H; subst. destruct (forallb _ ws0); [apply map_length|eapply prog_weights_length; eauto].
+  intro H. destruct (forallb _ ws0); [eapply prog_fallback_length; eauto|inversion H; subst; eapply prog_weights_length; eauto].
 Qed.
 
 (* ProgressivelyTerminalDecider: with non-negative weights of positive integer total, the production it returns has a
@@ -103,43 +121,66 @@ Proof.
   unfold choose. destruct alts as [|a0 t0]; [discriminate|]. remember (a0 :: t0) as alts.
   unfold bindM, lift. destruct (prog_target g) as [target|] eqn:Etg; [|discriminate].
   destruct (prog_final_weights g target ctx alts) as [ws|] eqn:Ew; [|discriminate].
+  destruct (forallb (fun q => Qeq_bool q 0) ws); [unfold fail; discriminate|].
   unfold on_src. destruct (choice_weighted (st_src st) alts ws) as [[y s1]|] eqn:Ec; [|discriminate].
   intro H. inversion H; subst y st'. clear H.
   exists target, ws. split; [reflexivity|]. split; [exact Ew|]. intros Hnn total Hl Ht Hz.
   destruct (choice_weighted_pick_positive _ _ _ _ _ total Ec ltac:(symmetry; eapply prog_final_length; eauto) Hnn Hl Ht) as [i [q [Hx [Hq Hpos]]]].
-  destruct (prog_final_nth _ _ _ _ _ Ew i x q Hx Hq) as [[h ->]| ->].
+  destruct (prog_final_nth _ _ _ _ _ Ew i x q Hx Hq) as [[h ->]|[->| ->]].
   - rewrite Hz in Hpos. ring_simplify in Hpos. exact (Qlt_irrefl 0 Hpos).
   - rewrite Hz in Hpos. exact (Qlt_irrefl 0 Hpos).
+  - exact (Qlt_irrefl 0 Hpos).
 Qed.
 
 (* the repaired case (F42): when every heuristic weight is zero the list handed to choice_weighted is the list of
-   production weights *)
+   production weights (0 for alternatives that cannot reach a terminal: F38) *)
 Theorem prog_fallback_is_production_weights g target ctx alts ws0 :
   prog_weights g target ctx alts = Ok ws0 -> forallb (fun q => Qeq_bool q 0) ws0 = true ->
-  prog_final_weights g target ctx alts = Ok (map (prod_weight g) alts).
+  prog_final_weights g target ctx alts = prog_fallback g alts.
 Proof. intros H Hz. unfold prog_final_weights. rewrite H. cbn [bind]. rewrite Hz. reflexivity. Qed.
+
+(* an alternative that cannot reach a terminal never gets a positive weight, in either list (repair of F38) *)
+Lemma prog_weights_unproductive g target ctx : forall alts ws, prog_weights g target ctx alts = Ok ws ->
+  forall i x q v, nth_error alts i = Some x -> nth_error ws i = Some q -> gdist_ty g x = Ok v -> INF <= v -> (q == 0)%Q.
+Proof.
+  induction alts as [|a t IH]; intros ws H i x q v Hx Hq Hv Hinf; cbn [prog_weights] in H; [destruct i; discriminate|].
+  destruct (gdist_ty g a) as [va|] eqn:Ev; cbn [bind] in H; [|discriminate].
+  destruct (prog_weights g target ctx t) as [r|] eqn:Er; cbn [bind] in H; [|discriminate]. inversion H; subst ws. clear H.
+  destruct i as [|i']; cbn [nth_error] in Hx, Hq.
+  - inversion Hx; inversion Hq; subst. rewrite Hv in Ev. inversion Ev; subst va.
+    assert (E : (INF <=? v) = true) by (apply Z.leb_le; exact Hinf). rewrite E. ring.
+  - eapply IH; eauto.
+Qed.
 
 (* with the clamped heuristic (repair of F44) the weights are non-negative whenever the target and the production weights are *)
 Lemma prog_weights_nonneg g target ctx : 0 <= target -> 0 <= c_depth ctx -> (forall x, (0 <= prod_weight g x)%Q) ->
   forall alts ws, prog_weights g target ctx alts = Ok ws -> forall q, In q ws -> (0 <= q)%Q.
 Proof.
   intros Ht Hd Hp. induction alts as [|a t IH]; intros ws H q Hq; cbn [prog_weights] in H; [inversion H; subst; destruct Hq|].
-  destruct (if in_rec g a then _ else _) as [w|] eqn:Ew; cbn [bind] in H; [|discriminate].
+  destruct (gdist_ty g a) as [v|] eqn:Ev; cbn [bind] in H; [|discriminate].
   destruct (prog_weights g target ctx t) as [r|] eqn:Er; cbn [bind] in H; [|discriminate]. inversion H; subst ws. clear H.
   destruct Hq as [<-|Hq]; [|eapply IH; eauto].
-  assert (Hw : 0 <= w).
-  { destruct (in_rec g a); [inversion Ew; subst; apply Z.div_pos; lia|].
-    destruct (gdist_ty g a); cbn [bind] in Ew; [|discriminate]. inversion Ew; subst. lia. }
+  assert (Hw : 0 <= (if INF <=? v then 0 else if in_rec g a then target / (c_depth ctx + 1) else Z.max (target - v) 0)).
+  { destruct (INF <=? v); [lia|]. destruct (in_rec g a); [apply Z.div_pos; lia|lia]. }
   apply Qmult_le_0_compat; [|apply Hp]. unfold Qle; cbn. lia.
+Qed.
+
+Lemma prog_fallback_nonneg g : (forall x, (0 <= prod_weight g x)%Q) ->
+  forall alts ws, prog_fallback g alts = Ok ws -> forall q, In q ws -> (0 <= q)%Q.
+Proof.
+  intro Hp. induction alts as [|a t IH]; intros ws H q Hq; cbn [prog_fallback] in H; [inversion H; subst; destruct Hq|].
+  destruct (gdist_ty g a) as [v|]; cbn [bind] in H; [|discriminate].
+  destruct (prog_fallback g t) as [r|] eqn:Er; cbn [bind] in H; [|discriminate]. inversion H; subst ws. clear H.
+  destruct Hq as [<-|Hq]; [|eapply IH; eauto]. destruct (INF <=? v); [apply Qle_refl|apply Hp].
 Qed.
 
 Lemma prog_final_nonneg g target ctx alts ws : 0 <= target -> 0 <= c_depth ctx -> (forall x, (0 <= prod_weight g x)%Q) ->
   prog_final_weights g target ctx alts = Ok ws -> forall q, In q ws -> (0 <= q)%Q.
 Proof.
   intros Ht Hd Hp. unfold prog_final_weights. destruct (prog_weights g target ctx alts) as [ws0|] eqn:E; cbn [bind]; [|discriminate].
-  intro H. inversion H; subst ws. clear H. destruct (forallb _ ws0).
-  - intros q Hq. apply in_map_iff in Hq. destruct Hq as [x [<- _]]. apply Hp.
-  - exact (prog_weights_nonneg g target ctx Ht Hd Hp alts ws0 E).
+  intro H. destruct (forallb _ ws0).
+  - exact (prog_fallback_nonneg g Hp alts ws H).
+  - inversion H; subst ws. exact (prog_weights_nonneg g target ctx Ht Hd Hp alts ws0 E).
 Qed.
 
 (* the decider-level statement without a hypothesis on the intermediate weights *)
